@@ -141,6 +141,7 @@ func ParseCheckpoint(chkpt []byte, origin string, logSigV note.Verifier, otherSi
 		return nil, nil, nil, errOpen
 	}
 	Assume(UFBool("hasNewline", chkpt)) // a signed note has at least two lines
+	textAxioms(chkpt)
 	Assume(SigLines(chkpt) >= 1)
 	Assume(SigLines(chkpt) <= 100)
 	if hostileOn {
@@ -214,6 +215,33 @@ func Sign(n *note.Note, signers ...note.Signer) ([]byte, error) {
 	return c, nil
 }
 
+// TextParses / TextOrigin: whether a note text is a well-formed checkpoint body, and its first line.
+func TextParses(text []byte) bool   { return UFBool("textParses", text) }
+func TextOrigin(text []byte) string { return UFStr("textOrigin", text) }
+
+// textAxioms ties the attributes of raw note bytes to those of the note's text (what
+// formats/log.ParseCheckpoint computes by unmarshalling the text of the opened note).
+func textAxioms(raw []byte) {
+	Assume(TextOK(raw) == TextParses(NoteText(raw)))
+	Assume(FirstLine(raw) == TextOrigin(NoteText(raw)))
+}
+
+// CheckpointUnmarshal is the contract of formats/log.Checkpoint.Unmarshal for code that opens a
+// note itself: origin, size and hash are functions of the text; an ill-formed body is refused.
+// (H-PCP, pcp_real=1, runs the real method.)
+//
+//wsym:replace (*github.com/transparency-dev/formats/log.Checkpoint).Unmarshal
+func CheckpointUnmarshal(c *log.Checkpoint, data []byte) ([]byte, error) {
+	if Param("pcp_real", 0) == 1 {
+		return c.Unmarshal(data)
+	}
+	if !TextParses(data) {
+		return nil, errUnmarshal
+	}
+	c.Origin, c.Size, c.Hash = TextOrigin(data), TextSize(data), TextHash(data)
+	return UFBytes("textRest", data), nil
+}
+
 // VList models note.VerifierList.
 type VList struct{ L []note.Verifier }
 
@@ -261,6 +289,7 @@ func NoteOpen(msg []byte, known note.Verifiers) (*note.Note, error) {
 	if len(n.Sigs) == 0 {
 		return nil, errOpen
 	}
+	textAxioms(msg)
 	var verified []uint64
 	for _, v := range vl.L {
 		verified = append(verified, keyOf(v))
